@@ -23,7 +23,10 @@ PLAN = dict(
          "content cipher of the pkcs package x 10 producing APIs x 1-3 recipients (SM2, RSA; ASN.1 and CFCA-legacy key "
          "encodings, issuer+serial and key-identifier addressing) or a pre-shared key; alteration sweeps apply all four "
          "substitutions (^01, ^80, 00, ff; identity mutants skipped) to every byte of a message; DER objects are every element "
-         "of every produced message plus generated trees with all length-octet boundaries. End-entity keys, serial numbers and "
+         "of every produced message plus generated trees with all length-octet boundaries; object histories: one parsed object "
+         "(or one builder) receives a scripted prefix (verify, alter p7.Content in place, restore, replace, resize; recipient A, "
+         "stranger, recipient B, A; right/wrong/right key; add, Finish, Finish, add, Finish) followed by a seeded random walk over "
+         "content operations x the five Verify* variants / the decrypt attempts, every step compared with a freshly parsed object. End-entity keys, serial numbers and "
          "contents come from the case PRNG; a case is non-trivial unless marked (empty DER content); distinct = distinct class "
          "keys (configuration | api / mode / OID family / verification path / signer (key-digest-attributes) list or "
          "api / cipher / recipient kinds | content-length class)",
@@ -31,6 +34,9 @@ PLAN = dict(
     + _both("c16.signenv.alter", (3, 12), 20, "120s")
     + _both("c16.env.roundtrip", (2, 6), 1000)
     + _both("c16.signed.roundtrip", (1, 4), 500, None, _SIG)
+    + _both("c16.history.signed", (2, 8), 300, None, _SIG)
+    + _both("c16.history.env", (1, 4), 300)
+    + _both("c16.history.builder", (1, 2), 100, None, _SIG)
     + [J("c16.sha1", ["sha1ok"], "asm", (1, 4), floor=20, env=_ENV, procs=2, deadline="120s"),
        J("c16.ber.der", ["avx2"], "asm", (1, 2), floor=1000, env=_ENV, procs=2),
        J("c16.ber.variants", ["avx2"], "asm", (1, 2), floor=100, env=_ENV, procs=2)],
@@ -61,7 +67,9 @@ CLAIM = dict(
          "strangers, impostor certificates, recipient certificates paired with other keys and other pre-shared keys never get the "
          "content and get an error; the BER normaliser is the identity on every DER element produced and on generated DER trees, "
          "and indefinite-length / long-form / constructed-string BER variants of honest messages normalise to the DER original "
-         "or to something that parses to the same content. Exploration: soundness is decided on the single-byte substitution "
+         "or to something that parses to the same content; on one parsed object verdicts and plaintexts of a sequence of "
+         "Verify* / Decrypt* calls interleaved with changes of p7.Content equal those of freshly parsed objects, and every Finish "
+         "output of one builder parses and verifies / opens. Exploration: soundness is decided on the single-byte substitution "
          "class only.",
     design_ref="DESIGN.md 6 (C16)",
     note="trusted: Go crypto/x509-style parsing inside smx509 for the PKI the harness builds with smx509.CreateCertificate, "
